@@ -12,14 +12,14 @@ git apply "$patch" || { echo "patch failed"; exit 1; }
 tname=$(basename "$dest" .rs)
 # 1. suite with the change (demo absent)
 cargo test --workspace --no-fail-fast --offline -j 8 > $out/suite_with_change.log 2>&1
-s1=$(grep -E "^test result" $out/suite_with_change.log | awk '{p+=$4; f+=$6} END {print p" passed "f" failed"}')
+s1=$(grep -aE "^test result" $out/suite_with_change.log | awk '{p+=$4; f+=$6} END {print p" passed "f" failed"}')
 # 2. demo with the change
 cp "$demo" "$dest"
 cargo test --workspace --offline -j 8 --test "$tname" > $out/demo_with_change.log 2>&1
-s2=$(grep -E "^test result" $out/demo_with_change.log | awk '{p+=$4; f+=$6} END {print p" passed "f" failed"}')
+s2=$(grep -aE "^test result" $out/demo_with_change.log | awk '{p+=$4; f+=$6} END {print p" passed "f" failed"}')
 # 3. demo without the change
 git apply -R "$patch"
 cargo test --workspace --offline -j 8 --test "$tname" > $out/demo_without_change.log 2>&1
-s3=$(grep -E "^test result" $out/demo_without_change.log | awk '{p+=$4; f+=$6} END {print p" passed "f" failed"}')
+s3=$(grep -aE "^test result" $out/demo_without_change.log | awk '{p+=$4; f+=$6} END {print p" passed "f" failed"}')
 rm -f "$dest"; git checkout -- . ; git clean -fdq -e target
 echo "$name: suite+change: $s1 | demo+change: $s2 | demo-change: $s3" | tee $out/confirm.txt
